@@ -7,6 +7,7 @@ import KinModel.Reads
 import KinModel.Lemmas.C11
 import KinModel.Gen.ReadSites
 import KinModel.Gen.WalkSites
+import KinModel.Gen.LoaderState
 namespace KinModel.Reads
 
 /-! ### first sentence: switch off -/
@@ -542,6 +543,31 @@ theorem resolver_sites_complete :
     (readSites.filter (fun r => r.callee == "loadSingleElementFromURI")).length = 10 ∧
     (readSites.filter (fun r => r.callee == "resolveComponent")).length = 10 ∧
     (readSites.filter (fun r => r.callee == "readURL")).length = 3 := by decide
+
+/-! ### what a load leaves behind in the `Loader` (table LoaderState, tie T for histories) -/
+
+open KinModel.Gen in
+/-- `rootLocation` and `rootDir` are assigned (by the first located load, by `LoadFromFile`) and NEVER read: an earlier
+load's location cannot influence a later one through them — the model of histories carries neither.
+`visitedDocuments` is touched by `loadFromDataWithPathInternal` only (created once, never reset: `carry` keeps `docs`);
+the in-progress set, its callbacks and the path are touched by `resetVisitedPathItemRefs`, `visitRef`, `unvisitRef`,
+`shouldVisitRef` only, and every entry point resets them (`carry` clears `inprog` and `pend`). -/
+theorem loader_state_as_modelled : ∀ r ∈ loaderState,
+    (r.field = "rootLocation" → r.fn = "loadFromDataWithPathInternal" ∧ r.access = "assign" ∧ r.detail = "location.Path") ∧
+    (r.field = "rootDir" → r.fn = "LoadFromFile" ∧ r.access = "assign") ∧
+    (r.field = "visitedDocuments" → r.fn = "loadFromDataWithPathInternal") ∧
+    (r.field = "visitedRefs" ∨ r.field = "backtrack" ∨ r.field = "visitedPath" →
+      r.fn = "resetVisitedPathItemRefs" ∨ r.fn = "visitRef" ∨ r.fn = "unvisitRef" ∨ r.fn = "shouldVisitRef") ∧
+    (r.field = "visitedPathItemRefs" → r.fn = "resetVisitedPathItemRefs" ∨ (r.fn = "ResolveRefsIn" ∧ r.access = "read")) := by decide
+
+open KinModel.Gen in
+/-- every load entry point resets the in-progress state; `visitedDocuments` is created once and never reset -/
+theorem loader_state_resets :
+    (∀ f ∈ ["LoadFromURI", "LoadFromData", "LoadFromDataWithPath"],
+      ∃ r ∈ loaderState, r.fn = f ∧ r.field = "resetVisitedPathItemRefs" ∧ r.access = "call") ∧
+    (loaderState.filter (fun r => r.field == "visitedDocuments" && r.access == "assign")).length = 1 ∧
+    (∀ r ∈ loaderState, r.fn = "resetVisitedPathItemRefs" → r.access = "assign" ∧
+      (r.field = "visitedRefs" ∨ r.field = "backtrack" ∨ r.field = "visitedPath" ∨ r.field = "visitedPathItemRefs")) := by decide
 
 /-! ### the walked positions and their order, regenerated from openapi3/loader.go (tie T) -/
 
